@@ -17,13 +17,12 @@ Definition byframe_pure (gs : list group) (f0 : option frame) (rate : f32) (h : 
   let from_rates :=
     obind (group_named gs nm_ANALOG) (fun ga =>
     if negb (nlen (g_params ga) =? 0) then
-      obind (f_tosize rate) (fun rs =>
-      if rs =? 0 then Ok (if negb (h_byframe h =? 1) then h_set_byframe h 1 else h)
+      if f32_is_zero rate then Ok (if negb (h_byframe h =? 1) then h_set_byframe h 1 else h)
       else obind (r_float0 15 gs nm_ANALOG nm_RATE) (fun ar =>
            obind (f_tosize (f_div ar rate)) (fun q =>
            if negb (q =? h_byframe h)
            then obind (r_float0 16 gs nm_ANALOG nm_RATE) (fun ar2 => obind (f_tosize (f_div ar2 rate)) (fun q2 => Ok (h_set_byframe h q2)))
-           else Ok h)))
+           else Ok h))
     else Ok h) in
   match f0 with
   | Some fr => if negb (nlen (fr_subs fr) =? 0)
@@ -83,23 +82,22 @@ Lemma analog_rate_factor : forall s rate h u s',
   analog_rate_step f_tosize f_div rate (set_hdr s h) = ROk u s' ->
   exists h', obind (group_named (groups s) nm_ANALOG) (fun ga =>
       if negb (nlen (g_params ga) =? 0) then
-        obind (f_tosize rate) (fun rs =>
-        if rs =? 0 then Ok (if negb (h_byframe h =? 1) then h_set_byframe h 1 else h)
+        if f32_is_zero rate then Ok (if negb (h_byframe h =? 1) then h_set_byframe h 1 else h)
         else obind (r_float0 15 (groups s) nm_ANALOG nm_RATE) (fun ar =>
              obind (f_tosize (f_div ar rate)) (fun q =>
              if negb (q =? h_byframe h)
              then obind (r_float0 16 (groups s) nm_ANALOG nm_RATE) (fun ar2 => obind (f_tosize (f_div ar2 rate)) (fun q2 => Ok (h_set_byframe h q2)))
-             else Ok h)))
+             else Ok h))
       else Ok h) = Ok h' /\ s' = set_hdr s h'.
 Proof.
   intros s rate h u s' R. unfold analog_rate_step in R.
   sget R. cbn [hdr set_hdr] in R. sgrp R. cs R (group_named (groups s) nm_ANALOG). unfold when in R.
   destruct (negb (nlen (g_params a) =? 0)).
-  - slift R. cs R (f_tosize rate). destruct (a0 =? 0).
+  - destruct (f32_is_zero rate).
     + destruct (negb (h_byframe h =? 1)); [rewrite mod_hdr_run in R|cbv [ret] in R]; injection R as _ <-; eexists; split; reflexivity.
-    + sflt R. cs R (r_float0 15 (groups s) nm_ANALOG nm_RATE). slift R. cs R (f_tosize (f_div a1 rate)).
-      destruct (negb (a2 =? h_byframe h)).
-      * sflt R. cs R (r_float0 16 (groups s) nm_ANALOG nm_RATE). slift R. cs R (f_tosize (f_div a3 rate)).
+    + sflt R. cs R (r_float0 15 (groups s) nm_ANALOG nm_RATE). slift R. cs R (f_tosize (f_div a0 rate)).
+      destruct (negb (a1 =? h_byframe h)).
+      * sflt R. cs R (r_float0 16 (groups s) nm_ANALOG nm_RATE). slift R. cs R (f_tosize (f_div a2 rate)).
         rewrite mod_hdr_run in R. injection R as _ <-. eexists; split; reflexivity.
       * cbv [ret] in R. injection R as _ <-. eexists; split; reflexivity.
   - cbv [ret] in R. injection R as _ <-. eexists; split; reflexivity.
@@ -241,18 +239,16 @@ Proof.
   assert (RATES : forall hx,
     obind (group_named gs nm_ANALOG) (fun ga =>
       if negb (nlen (g_params ga) =? 0) then
-        obind (f_tosize rate) (fun rs =>
-        if rs =? 0 then Ok (if negb (h_byframe h =? 1) then h_set_byframe h 1 else h)
+        if f32_is_zero rate then Ok (if negb (h_byframe h =? 1) then h_set_byframe h 1 else h)
         else obind (r_float0 15 gs nm_ANALOG nm_RATE) (fun ar =>
              obind (f_tosize (f_div ar rate)) (fun q =>
              if negb (q =? h_byframe h)
              then obind (r_float0 16 gs nm_ANALOG nm_RATE) (fun ar2 => obind (f_tosize (f_div ar2 rate)) (fun q2 => Ok (h_set_byframe h q2)))
-             else Ok h)))
+             else Ok h))
       else Ok h) = Ok hx -> hx = h \/ exists n, hx = h_set_byframe h n).
   { intros hx R. destruct (group_named gs nm_ANALOG) as [ga| |]; cbn [obind] in R; try discriminate.
     destruct (negb (nlen (g_params ga) =? 0)); [|injection R as <-; left; reflexivity].
-    destruct (f_tosize rate) as [rs| |]; cbn [obind] in R; try discriminate.
-    destruct (rs =? 0).
+    destruct (f32_is_zero rate).
     - destruct (negb (h_byframe h =? 1)); injection R as <-; [right; eexists; reflexivity|left; reflexivity].
     - destruct (r_float0 15 gs nm_ANALOG nm_RATE) as [ar| |]; cbn [obind] in R; try discriminate.
       destruct (f_tosize (f_div ar rate)) as [q| |]; cbn [obind] in R; try discriminate.
